@@ -1,12 +1,18 @@
 /-
 Secondary tie for C08: the grid arithmetic of `neuropixel.rc2xy` / `xy2rc`, the ADC-number formula of `adc_shifts` and the
 pointwise coordinate fix-ups of `spikeglx.geometry_from_meta` (NP1 flip `70 - x`, tip offset `+ 20`, shank-map column flip),
-GENERATED from the current source text, equal what the model `IblVerif.Geometry` computes.
+GENERATED from the current source text, equal what the model `IblVerif.Geometry` computes.  Round h: the per-version decision
+and the loop body of `adc_shifts`, `_map_channels_from_meta` (which key, field positions), the two shank restrictions, the whole
+statement sequence of `geometry_from_meta` (site-table branch) and of `dense_layout`, read from the source as event lists and run
+with the NumPy meaning of `Model/GeomStagesC08.lean`, equal the functional model (`geometryFromMeta`, `mapChannels`, `restrict`,
+`adcParams`, `maskAssign`, `denseLayout`).
 -/
 import IblVerif.Generated.SrcC08
 import IblVerif.Model.Geometry
+import IblVerif.Lemmas.GeomStagesC08
+import IblVerif.Lemmas.DenseLayout
 namespace IblVerif.Tie.C08
-open IblVerif IblVerif.Geometry
+open IblVerif IblVerif.Geometry IblVerif.GeomStages IblVerif.Generated
 
 theorem rc2xy_eq (v : Version) (row col : Int) :
     (Src.C08.rc2xy_x col (grid v).dx (grid v).x0, Src.C08.rc2xy_y row (grid v).dy (grid v).y0) = rc2xy v row col := by
@@ -80,5 +86,126 @@ theorem siteCols_shankMap (cm : RawMap) (v : Version) (x y row col : List Int) (
         rw [Int.fmod_eq_emod_of_nonneg _ (by omega)]
       · rfl
     · rfl
+
+/-! ## round h: decisions and statement order, read from the source as event lists (meaning: `Model/GeomStagesC08.lean`) -/
+
+/-- Presence flag of a dict key as the translator passes it (`"k" in md` ↦ `md_has_k ≠ 0`). -/
+def flag {α} (o : Option α) : Int := if o.isSome then 1 else 0
+
+/-- `adc_shifts`: channels per ADC and cycles per sample for each probe generation (`np.floor(2.4) = 2`; any `version` the
+string test `version == "NPultra"` accepts), and nothing is assigned for another number. -/
+theorem adc_params_eq :
+    adcParamsOfEvents (Src.C08.adc_params_num 1) = (some ((adcParams .v1).1 : Int), some ((adcParams .v1).2 : Int)) ∧
+    adcParamsOfEvents (Src.C08.adc_params_num 2) = (some ((adcParams .v2).1 : Int), some ((adcParams .v2).2 : Int)) ∧
+    adcParamsOfEvents (Src.C08.adc_params_num 2) = (some ((adcParams .v24).1 : Int), some ((adcParams .v24).2 : Int)) ∧
+    (∀ version, adcParamsOfEvents (Src.C08.adc_params_ultra version) =
+      (some ((adcParams .ultra).1 : Int), some ((adcParams .ultra).2 : Int))) ∧
+    (∀ version, version ≠ 1 → version ≠ 2 → adcParamsOfEvents (Src.C08.adc_params_num version) = (none, none)) := by
+  refine ⟨by decide, by decide, by decide, ?_, ?_⟩
+  · intro version
+    simp only [Src.C08.adc_params_ultra, or_true, if_true]
+    decide
+  · intro version h1 h2
+    simp [Src.C08.adc_params_num, h1, h2, adcParamsOfEvents]
+
+/-- One iteration of the loop of `adc_shifts` is the model's mask assignment of the ranks `0 … adc_channels-1`, over the
+denominator `n_cycles`; `adcShiftsLoop` folds exactly this step over `adc`. -/
+theorem adc_loop_body_eq (a n : Nat) (adc : List Nat) (g : Nat) (st : List Nat) :
+    runLoopBody adc g st (Src.C08.adc_loop_body a n) =
+      match maskAssign adc g (List.range a) st with
+      | .error e => .error e
+      | .ok st' => .ok (st', (n : Int)) := by
+  simp only [Src.C08.adc_loop_body, runLoopBody, Int.toNat_natCast]
+  cases maskAssign adc g (List.range a) st <;> rfl
+
+/-- `_map_channels_from_meta`: the shank map is scanned when its key is present, else the geometry map, else `None`; the
+fields of a tuple are (shank, col | x, row | y, flag) in this order. -/
+theorem map_channels_eq (shankMap geomMap : Option (List Char)) :
+    runMapPlan shankMap geomMap (Src.C08.map_channels_plan (flag shankMap) (flag geomMap)) = mapChannels shankMap geomMap := by
+  cases shankMap <;> cases geomMap <;>
+    simp [Src.C08.map_channels_plan, flag, runMapPlan, mapChannels, parseWith] <;> rfl
+
+/-- `_split_geometry_into_shanks`: with the key `NP2.4_shank` EVERY key of `th` is restricted to the sites of that shank
+(`restrict`), without it `th` is returned unchanged — the first step of `finishGeom`. -/
+theorem split_geometry_eq (th : Geom) (key : Option Int) :
+    runSplit th key (Src.C08.split_geometry_plan (flag key)) =
+      match key with
+      | none => .ok th
+      | some s => restrict th s := by
+  cases key <;> simp [Src.C08.split_geometry_plan, flag, runSplit]
+
+/-- `split_trace_header(h, shank)` is `restrict h shank` (every key of `h`, `ind` included, gathered by the same index list). -/
+theorem split_header_eq (h : Geom) (s : Int) : runSplit h (some s) Src.C08.split_header_plan = restrict h s := by
+  simp [Src.C08.split_header_plan, runSplit]
+
+/-- The statement sequence of `geometry_from_meta` for a metadata with a site table is the model's stage list, for both
+encodings, every probe version and both values of `sort`. -/
+theorem geometry_stages_eq (enc : Encoding) (mv : Option Version) (hx mvI : Int) (hhx : hx ≠ 0 ↔ enc = .geomMap)
+    (hmv : mvI = 1 ↔ mv = some .v1) :
+    Src.C08.geometry_stages_sorted hx mvI = stages enc (decide (mv = some .v1)) true ∧
+    Src.C08.geometry_stages_unsorted hx mvI = stages enc (decide (mv = some .v1)) false := by
+  unfold Src.C08.geometry_stages_sorted Src.C08.geometry_stages_unsorted
+  by_cases h1 : mv = some .v1 <;> cases enc <;> simp_all [stages]
+
+/-- **`geometry_from_meta` as written in the source = the model**: running the source's statement list (with the NumPy
+meaning `GeomStages.step` gives each statement) on the parsed table returns what `geometryFromMeta` returns, for every metadata
+with a site table, sorted or not. -/
+theorem geometry_from_meta_eq (m : Meta) (cm : RawMap) (hcm : mapChannels m.shankMap m.geomMap = .ok (some cm)) (nc : Nat)
+    (hx mvI : Int) (hhx : hx ≠ 0 ↔ cm.enc = .geomMap) (hmv : mvI = 1 ↔ m.major = some .v1) :
+    (geometryFromMeta m true nc =
+      match run cm m.major m.np24Shank (Src.C08.geometry_stages_sorted hx mvI) with
+      | .error e => .error e
+      | .ok r => .ok (some r)) ∧
+    (geometryFromMeta m false nc =
+      match run cm m.major m.np24Shank (Src.C08.geometry_stages_unsorted hx mvI) with
+      | .error e => .error e
+      | .ok r => .ok (some r)) := by
+  obtain ⟨h1, h2⟩ := geometry_stages_eq cm.enc m.major hx mvI hhx hmv
+  rw [h1, h2]
+  exact ⟨geometryFromMeta_eq_run m cm hcm true nc, geometryFromMeta_eq_run m cm hcm false nc⟩
+
+example : (1 : Int) ≠ 0 ↔ Encoding.geomMap = .geomMap := by decide
+example : ((1 : Int) = 1 ↔ (some Version.v1) = some .v1) ∧ ((2 : Int) = 1 ↔ (some Version.v24) = some .v1) := by decide
+
+/-- `dense_layout`: the default row of channel `i` (two sites per row). -/
+theorem dense_row_default_eq (i : Nat) : Src.C08.dense_row_default i = ((i / 2 : Nat) : Int) := by
+  unfold Src.C08.dense_row_default
+  rw [Int.fdiv_eq_ediv_of_nonneg _ (by omega)]
+  omega
+
+set_option maxRecDepth 100000 in
+/-- `dense_layout(1, nshank)`: the statements of the source (default rows `i // 2`, `col = tile([2, 0, 3, 1], NC / 4)`, `rc2xy`), run with
+their NumPy meaning (`GeomStages.denseStep`), give the model's `denseLayout .v1` for every `nshank`. -/
+theorem dense_v1 (ns : Nat) : runDense .v1 Src.C08.dense_row_default (Src.C08.dense_stages_num 1 ns) = denseLayout .v1 ns := by
+  have h : ∀ ns, denseLayout .v1 ns = denseLayout .v1 1 := fun _ => rfl
+  have h2 : Src.C08.dense_stages_num 1 ns = Src.C08.dense_stages_num 1 1 := by simp [Src.C08.dense_stages_num]
+  rw [h, h2]; decide +kernel
+
+set_option maxRecDepth 100000 in
+/-- `dense_layout("NPultra", nshank)` (any numeric value ≠ 1 the name `version` may have when the string test succeeds). -/
+theorem dense_ultra (ns : Nat) (version : Int) (hv : version ≠ 1) :
+    runDense .ultra Src.C08.dense_row_default (Src.C08.dense_stages_ultra version) = denseLayout .ultra ns := by
+  have h : ∀ ns, denseLayout .ultra ns = denseLayout .ultra 1 := fun _ => rfl
+  have h2 : Src.C08.dense_stages_ultra version = Src.C08.dense_stages_ultra 0 := by simp [Src.C08.dense_stages_ultra, hv]
+  rw [h, h2]; decide +kernel
+
+set_option maxRecDepth 100000 in
+/-- `dense_layout(2 | 2.4, nshank)` for EVERY `nshank`: one shank, four shanks (the tile / repeat parameters 16, 2, 8, the block
+pattern 0,0,1,1,0,0,1,1 × 24 rows, the shank pattern 0,1,0,1,2,3,2,3), and KeyError for any other count. -/
+theorem dense_v2 (v : Version) (hv : v = .v2 ∨ v = .v24) (ns : Nat) :
+    runDense v Src.C08.dense_row_default (Src.C08.dense_stages_num 2 ns) = denseLayout v ns := by
+  by_cases h1 : ns = 1
+  · subst h1; rcases hv with rfl | rfl <;> decide +kernel
+  · by_cases h4 : ns = 4
+    · subst h4; rcases hv with rfl | rfl <;> decide +kernel
+    · have hs : Src.C08.dense_stages_num 2 ns = [("rc2xy", [])] := by
+        have a1 : ¬ ((ns : Int) = 1) := by omega
+        have a4 : ¬ ((ns : Int) = 4) := by omega
+        simp [Src.C08.dense_stages_num, a1, a4]
+      have ho := denseLayout_other ns h1 h4
+      rw [hs]
+      rcases hv with rfl | rfl
+      · rw [ho.1]; decide +kernel
+      · rw [ho.2]; decide +kernel
 
 end IblVerif.Tie.C08
